@@ -24,6 +24,9 @@ type c05Case struct {
 	Variants []int    `json:"variants"` // context variant per goroutine
 	Fetchers int      `json:"fetchers"` // goroutines that call FromCache/FromFile on the same set meanwhile
 	FailAt   int      `json:"fail_at"`  // some goroutines run with an injected fault
+	// SharedCtx: all goroutines pass the very same Context map (execution never writes to it - C12 -
+	// so that is as legitimate as sharing the template)
+	SharedCtx bool `json:"shared_ctx,omitempty"`
 }
 
 func checkC05(c any, r *Rec) error {
@@ -63,6 +66,17 @@ func checkC05(c any, r *Rec) error {
 	var running, maxRunning int32
 	var mu sync.Mutex
 	var bad []string
+	// (a stateless tick function: the shared map must not carry per-execution state of the harness)
+	sharedCtx := progContext(cs.Variants[0], nil)
+	var sharedWant res
+	if cs.SharedCtx {
+		_, fresh, _, err := compileProgram(cs.Prog, cs.Trim, cs.LStrip)
+		if err != nil {
+			return fmt.Errorf("second compilation failed: %v", err)
+		}
+		o, e := fresh.Execute(progContext(cs.Variants[0], nil))
+		sharedWant = res{o, errText(e)}
+	}
 	for g := 0; g < cs.K; g++ {
 		wg.Add(1)
 		go func(g int) {
@@ -83,6 +97,16 @@ func checkC05(c any, r *Rec) error {
 			}
 			for i := 0; i < cs.Reps; i++ {
 				entry := entries[(g+i)%len(entries)]
+				if cs.SharedCtx {
+					o, err := shared.Execute(sharedCtx)
+					if w := sharedWant; o != w.out || errText(err) != w.err {
+						mu.Lock()
+						bad = append(bad, fmt.Sprintf("goroutine %d rep %d (one Context map shared by all goroutines): got %q / %s, alone it gives %q / %s", g, i, o, errText(err), w.out, w.err))
+						mu.Unlock()
+						break
+					}
+					continue
+				}
 				o, e := c04Exec(shared, c04Step{Variant: v, FailAt: f, Entry: entry})
 				w := want[key(v, f)]
 				if entry == "ExecuteBlocks" {
@@ -143,7 +167,7 @@ func checkC05(c any, r *Rec) error {
 var _ = register(&propSpec{
 	ID:    "C05.concurrent",
 	Journ: true,
-	Rule:  "C04's deterministic programs (single and multi-file, lazy includes, macros, blocks, cycle/ifchanged, both trim options) compiled once and executed by k=2-8 goroutines x 1-12 repetitions released together by a barrier, through all four entry points and ExecuteBlocks, some with injected faults, while 0-2 more goroutines call FromCache/FromFile on the same set; built with -race (GORACE=halt_on_error): a race report kills the worker and the journalled workload is confirmed in fresh processes; every concurrent result must equal the sequential fresh-compile reference. Non-trivial: >= 2 goroutines were inside Execute at the same time and the program has a tag with a body.",
+	Rule:  "C04's deterministic programs (single and multi-file, lazy includes, macros, blocks, cycle/ifchanged, both trim options) compiled once and executed by k=2-8 goroutines x 1-12 repetitions released together by a barrier, through all four entry points and ExecuteBlocks (in a quarter of the cases all goroutines pass one and the same Context map), some with injected faults, while 0-2 more goroutines call FromCache/FromFile on the same set; built with -race (GORACE=halt_on_error): a race report kills the worker and the journalled workload is confirmed in fresh processes; every concurrent result must equal the sequential fresh-compile reference. Non-trivial: >= 2 goroutines were inside Execute at the same time and the program has a tag with a body.",
 	Gen: func(t *rapid.T) any {
 		k := drawInt(t, 2, 8, "k")
 		cs := &c05Case{
@@ -154,6 +178,7 @@ var _ = register(&propSpec{
 			Reps:     drawInt(t, 1, 12, "reps"),
 			Fetchers: drawInt(t, 0, 2, "fetchers"),
 		}
+		cs.SharedCtx = drawInt(t, 0, 3, "sharedctx") == 0
 		nv := drawInt(t, 1, 3, "nvariants")
 		for i := 0; i < nv; i++ {
 			cs.Variants = append(cs.Variants, drawInt(t, 0, 11, "variant"))
